@@ -129,10 +129,16 @@ def run_chain(ctx, chain, tag, upto=None, final_end=None):
         o = _load(out)
         if o is None:
             raise InfraError("C17 child produced no record (rc=%s) for %s: %s" % (rc, json.dumps(spec)[:200], err))
+        if o.get("open_error"):
+            # the file left by the previous generation cannot be opened by the next writer
+            recs.append({"spec": spec, "rc": rc, "out": o, "obs": {}, "end": end})
+            break
         if rc != -9:
             raise InfraError("C17 child was not killed by SIGKILL (rc=%s): %s" % (rc, err))
         obs = observe(ctx, path, "%s.g%d" % (tag, i))
         recs.append({"spec": spec, "rc": rc, "out": o, "obs": obs, "end": end})
+        if check_generation(chain, i, recs[-1]) is not None:
+            break           # the file is not what it should be: later generations would build on sand
         try:
             os.unlink(out)
         except OSError:
@@ -182,6 +188,10 @@ def check_generation(chain, i, rec):
             "close": "nixio/file.py:File.close", "exit": "nixio/file.py:File.__exit__",
             "exit_exc": "nixio/file.py:File.__exit__"}.get(end, "nixio/file.py")
     inp = {"kind": "chain", "seed": chain["seed"], "gens": chain["gens"][:i + 1], "generation": i}
+    if out.get("open_error"):
+        return Failure("a file flushed/closed by the previous writer and killed cannot be opened by the next "
+                       "writer", inp, {"open_error": out["open_error"], "mode": rec["spec"]["mode"]},
+                       "opens", "nixio/file.py")
     if out.get("end_error"):
         return None          # the call did not return: the property's premise is not met (reported as disagreement)
     want = out["final_walk"]
@@ -226,6 +236,9 @@ def model_events(rng, chain, recs):
     for i, (g, rec) in enumerate(zip(chain["gens"], recs)):
         out, obs = rec["out"], rec["obs"]
         mode = g["mode"]
+        if out.get("open_error"):
+            add(["open", mode], ("err", None), "g%d.open" % i)
+            break
         add(["open", mode], ("ok", None), "g%d.open" % i)
         if mode == "w" or not exists:
             cur = {}
